@@ -25,4 +25,17 @@ CLAIMS = {
         "runs from the real initial state), the reference FSM.",
         "technique": TECH_S,
     },
+    "C07": {
+        "engine": "symex+py2smt",
+        "text": "Compositional bounded symbolic checking of the real ACL code: L1 the masked-range kernel translated "
+        "from source to BV32 and decided by z3 for all 2^96 inputs; L2 ACLRule.permit_frame_check on a real rule with "
+        "every field symbolic (specified or not, addresses/ports as solver integers) against the reference 'all "
+        "specified fields match'; L3 AccessControlList.is_permitted/add_rule/remove_rule on a real list with oracle "
+        "matchers: lowest matching position decides, exactly one hit counter moves, edits touch only the addressed "
+        "slot (Python API and request API), every position -2..max+1.",
+        "note": "Bounds: up to 3 (quick) / 5 (thorough) populated slots; 4 field combinations for edits. Trusted: "
+        "CrossHair/z3, the lemma composition, the recording oracle standing in for the kernel in L2, the BV model of "
+        "int(IPv4Address). Scenario-file loading of rules is checked under C20, not here.",
+        "technique": "symbolic execution of the real code (CrossHair+z3) + AST-to-SMT translation of the address kernel (z3 BV32), counterexamples replayed",
+    },
 }
